@@ -516,3 +516,77 @@ _run_c22d = run
 def run(ctx):  # noqa: F811
     _run_c22d(ctx)
     r22_9(ctx, ctx.model)
+
+
+# ---------------------------------------------------------------------------------------------------------------- R22.10
+def r22_10(ctx, m, rid="R22.10"):
+    """a communicator handed to a callee lands in the callee's `comm` parameter"""
+    ctx.rule(rid, "MPI modules of nifty.cl.minimization: wherever a call passes the communicator (an expression `comm`, `self._comm`, "
+                  "`comm(i)`) to a library function or constructor that HAS a parameter named comm, it is bound to that parameter "
+                  "(resolved by position or keyword against the callee's signature) - a communicator in another slot (a truthy "
+                  "object where a flag is expected) silently changes what is computed and leaves the result undistributed", floor=10)
+    mods = [mod for mod in m.modules.values() if mod.name.startswith("nifty.cl.minimization")]
+    # callable table: plain functions, classes (-> __init__), Class.method for static/class methods
+    table = {}
+    for mod in m.modules.values():
+        if not mod.name.startswith("nifty.cl."):
+            continue
+        for fn_name, fi in mod.functions.items():
+            table.setdefault(fn_name, []).append((fi, 0))
+        for cn, c in mod.classes.items():
+            if "__init__" in c.methods:
+                table.setdefault(cn, []).append((c.methods["__init__"], 1))
+            for mn_, mf in c.methods.items():
+                deco = [src(d) for d in mf.node.decorator_list]
+                skip = 0 if "staticmethod" in deco else 1
+                table.setdefault(f"{cn}.{mn_}", []).append((mf, skip))
+    n = 0
+    for mod in mods:
+        for fi in mod.all_functions:
+            for c in walk_no_nested(fi.node):
+                if not isinstance(c, ast.Call):
+                    continue
+                cname = src(c.func)
+                cands = table.get(cname) or table.get(cname.split(".")[-1] if cname.count(".") == 0 else cname)
+                if not cands or len(cands) != 1:
+                    continue
+                callee, skip = cands[0]
+                params = callee.params()[skip:]
+                if "comm" not in params:
+                    continue
+                binds = []   # (param name, arg expr)
+                ok_bind = True
+                for i, a in enumerate(c.args):
+                    if isinstance(a, ast.Starred) or i >= len(params):
+                        ok_bind = False
+                        break
+                    binds.append((params[i], a))
+                for k in c.keywords:
+                    if k.arg is None:
+                        ok_bind = False
+                        break
+                    binds.append((k.arg, k.value))
+                if not ok_bind:
+                    continue
+
+                def is_comm(e):
+                    t = src(e)
+                    return t in ("comm", "self._comm", "self.comm") or (isinstance(e, ast.Call) and src(e.func) == "comm")
+                comm_args = [(p, a) for p, a in binds if is_comm(a)]
+                if not comm_args:
+                    continue
+                n += 1
+                ctx.saw_func(fi)
+                wrong = [(p, src(a)) for p, a in comm_args if p != "comm"]
+                ctx.check(rid, f"{fi.key}::`{short(c, 50)}` binds the communicator to `comm`", not wrong,
+                          f"`{wrong[0][1]}` is bound to parameter `{wrong[0][0]}` of {callee.qualname}" if wrong else "", fi, c)
+    if not n:
+        ctx.und(rid, "nifty.cl.minimization::communicator arguments", "no resolvable call passes a communicator", "nifty/cl/minimization")
+
+
+_run_c22e = run
+
+
+def run(ctx):  # noqa: F811
+    _run_c22e(ctx)
+    r22_10(ctx, ctx.model)
